@@ -271,7 +271,7 @@ func (db *DB) Get(key []byte) ([]byte, error) {
 	}
 
 	// 获取 value 并返回
-	return db.getValueByPosition(logRecordPos)
+	return db.getValueByPosition(key, logRecordPos)
 }
 
 // Delete 根据 key 删除数据
@@ -334,7 +334,7 @@ func (db *DB) Fold(fn func(key []byte, value []byte) bool) error {
 	// 使用完成后必须关闭, 否则可能导致 B+ 树索引的读写事务互斥阻塞
 	defer iterator.Close()
 	for iterator.Rewind(); iterator.Valid(); iterator.Next() {
-		value, err := db.getValueByPosition(iterator.Value())
+		value, err := db.getValueByPosition(iterator.Key(), iterator.Value())
 		if err != nil {
 			return err
 		}
@@ -634,7 +634,7 @@ func checkOptions(options Options) error {
 }
 
 // 根据索引信息获取 value
-func (db *DB) getValueByPosition(logRecordPos *datafile.DataPos) ([]byte, error) {
+func (db *DB) getValueByPosition(key []byte, logRecordPos *datafile.DataPos) ([]byte, error) {
 	var (
 		dataFile *datafile.DataFile
 		isActive bool
@@ -655,7 +655,7 @@ func (db *DB) getValueByPosition(logRecordPos *datafile.DataPos) ([]byte, error)
 		return nil, ErrDataFileNotFound
 	}
 	// 根据偏移读取对应的数据
-	value, err := dataFile.ReadRecordValue(logRecordPos)
+	value, err := dataFile.ReadRecordValue(logRecordPos, key)
 	if err != nil {
 		return nil, err
 	}
